@@ -1761,7 +1761,7 @@ pub fn minimise_robust(plan: &RobustPlan, v: &Violation) -> (RobustPlan, Violati
 // C14-D7: the -d / -p files written by the binary
 // ---------------------------------------------------------------------------------------------
 
-use crate::model::dotread::parse_dot;
+use crate::model::dotread::parse_bdd_dot;
 
 #[derive(Clone, Debug, PartialEq, Eq, Serialize, Deserialize)]
 pub struct ExportPlan {
@@ -1870,7 +1870,7 @@ pub fn execute_export(p: &ExportPlan) -> RunOutcome {
     } else {
         // the diagram file
         let dot = std::fs::read(&dot_path).unwrap_or_default();
-        match parse_dot(&String::from_utf8_lossy(&dot)) {
+        match parse_bdd_dot(&String::from_utf8_lossy(&dot)) {
             Err(e) => vs.push(viol("C14", "D7", "dot-syntax", format!("-d file of `{text}` does not read back: {e}"))),
             Ok(g) => {
                 if let Err(e) = g.well_formed() {
